@@ -57,6 +57,11 @@ pub proof fn lemma_boff_mono(s: Seq<char>)
     assert forall|i: nat, j: nat| i <= j <= s.len() implies #[trigger] boff(s, i) <= #[trigger] boff(s, j) by { lemma_mono_ind(s, i, j); }
     assert forall|i: nat, j: nat| i < j <= s.len() implies #[trigger] boff(s, i) < #[trigger] boff(s, j) by { lemma_mono_ind(s, i + 1, j); lemma_boff_step(s, i); }
 }
+pub proof fn lemma_boff_gap(s: Seq<char>)
+    ensures forall|i: nat, j: nat| i <= j <= s.len() ==> #[trigger] boff(s, j) - #[trigger] boff(s, i) >= j - i,
+{
+    assert forall|i: nat, j: nat| i <= j <= s.len() implies #[trigger] boff(s, j) - #[trigger] boff(s, i) >= j - i by { lemma_mono_ind(s, i, j); }
+}
 /// boff is injective on 0..=len, so a byte offset names at most one char index
 pub proof fn lemma_boff_inj(s: Seq<char>, i: nat, j: nat)
     requires i <= s.len(), j <= s.len(), boff(s, i) == boff(s, j)
@@ -167,12 +172,12 @@ pub broadcast axiom fn ax_msg_eco(m: EcoString) ensures #[trigger] msg_text::<Ec
 pub broadcast axiom fn ax_msg_string(m: String) ensures #[trigger] msg_text::<String>(m) == m@;
 /// A-into: every `Into<EcoString>` / `Into<String>` conversion used for messages obeys vstd's
 /// IntoSpec and keeps the text (the real impls are `From<&str>`, `From<String>`, `From<EcoString>`, identity)
-pub broadcast axiom fn ax_into_eco<M: Into<EcoString>>(m: M)
+pub axiom fn ax_into_eco<M: Into<EcoString>>(m: M)
     ensures <M as IntoSpec<EcoString>>::obeys_into_spec(),
-        eco_view(&#[trigger] <M as IntoSpec<EcoString>>::into_spec(m)) == msg_text(m);
-pub broadcast axiom fn ax_into_string<M: Into<String>>(m: M)
+        eco_view(&<M as IntoSpec<EcoString>>::into_spec(m)) == msg_text(m);
+pub axiom fn ax_into_string<M: Into<String>>(m: M)
     ensures <M as IntoSpec<String>>::obeys_into_spec(),
-        (#[trigger] <M as IntoSpec<String>>::into_spec(m))@ == msg_text(m);
+        (<M as IntoSpec<String>>::into_spec(m))@ == msg_text(m);
 /// stands for `eco_format!("expected {kind:?}")`: formatting machinery is outside Verus (R5);
 /// the literal prefix is non-empty, which is all the contracts use.
 #[verifier::external_body]
@@ -214,9 +219,9 @@ pub assume_specification [TextRange::new] (start: TextSize, end: TextSize) -> (r
     requires ts_val(start) <= ts_val(end)
     ensures tr_start(r) == ts_val(start), tr_end(r) == ts_val(end);
 /// `usize -> TextSize` is `u32::try_from(x).map(TextSize::from)` (text-size 1.1.1, src/traits.rs)
-pub broadcast axiom fn ax_usize_to_text_size(x: usize)
+pub axiom fn ax_usize_to_text_size(x: usize)
     ensures <usize as TryIntoSpec<TextSize>>::obeys_try_into_spec(),
-        x <= u32::MAX ==> (#[trigger] <usize as TryIntoSpec<TextSize>>::try_into_spec(x)).is_ok()
+        x <= u32::MAX ==> (<usize as TryIntoSpec<TextSize>>::try_into_spec(x)).is_ok()
             && ts_val(<usize as TryIntoSpec<TextSize>>::try_into_spec(x).unwrap()) == x;
 
 pub assume_specification<Idx: Clone> [<core::ops::Range<Idx> as Clone>::clone] (r: &core::ops::Range<Idx>) -> (c: core::ops::Range<Idx>) ensures c == *r;
